@@ -372,6 +372,33 @@ def eval_accept(case: dict) -> dict:
                 out['late'] = {'waited': limit + 5, 'state': conn.state.name, 'registered': conn in net.peer_connections,
                                'remote_sees_eof': h_r.at_eof(),
                                'closes': [r for cid, st, r in states if cid == id(conn) and st == 'CLOSED']}
+            if (conn is not None and not case['then_eof'] and case['first'] == 'peerinit'
+                    and case.get('ctype') not in (None, 'F')):
+                # a complete, decodable init and the peer stays connected: its next frame is parsed (delivered, or the
+                # connection is closed) and a peer that then goes silent is dropped by the read time-out — whatever the
+                # connection type it announced. (Type F is handed to the transfer manager, which is not part of this rig.)
+                n0 = len([d for d in delivered if d[0] == id(conn)])
+                nxt = (m.DistributedBranchLevel.Request(3) if case.get('ctype') == 'D'
+                       else m.PeerUserInfoRequest.Request()).serialize()
+                if case['obf']:
+                    from aioslsk.protocol import obfuscation
+                    nxt = obfuscation.encode(nxt, b'\x11\x22\x33\x44') if conn.obfuscated else nxt
+                try:
+                    h_w.write(nxt)
+                except Exception:  # noqa: BLE001  (already closed by the library: fine)
+                    pass
+                await simloop.settle()
+                await simloop.advance(1)
+                after = {'delivered': len([d for d in delivered if d[0] == id(conn)]) - n0, 'state': conn.state.name,
+                         'reader': bool(conn._reader_task is not None and not conn._reader_task.done()),
+                         'connection_state': conn.connection_state.name}
+                limit = max(float(conn.read_timeout or 0), 1.0)
+                await simloop.advance(limit + 5)
+                await simloop.settle()
+                after.update({'waited': limit + 5, 'state_late': conn.state.name, 'registered_late': conn in net.peer_connections,
+                              'remote_sees_eof_late': h_r.at_eof(),
+                              'closes': [r for cid, st, r in states if cid == id(conn) and st == 'CLOSED']})
+                out['after_init'] = after
             await net.disconnect()
         finally:
             fn.uninstall()
@@ -383,14 +410,21 @@ def eval_accept(case: dict) -> dict:
     return out
 
 
+ODD_TYPES = ['Q', 'T', 'p', 'd', 'f', '\x10', 'X', '', 'PD', 'PP', 'DD', 'FP', 'é', 'P ', ' P', 'P\x00', 'x' * 40]
+
+
 def accept_case(rng: random.Random, table: list, m, p) -> dict:
     obf = rng.random() < 0.4
+    ctype = None
     tickets = rng.choice([[], [77], [77, 78]])
     kind = rng.choice(['peerinit', 'pierce-known', 'pierce-unknown', 'other-msg', 'undecodable', 'unknown-code',
                        'truncated', 'nothing', 'lying-length', 'garbage-body'])
     then_eof = rng.random() < 0.5
     if kind == 'peerinit':
-        frame = m.PeerInit.Request('someone', rng.choice(['P', 'D', 'F']), rng.choice([1, 5, 2 ** 32 - 1])).serialize()
+        # a well-formed init whose connection type is one of the three the protocol knows — or is not (a flipped bit, a
+        # lower-case letter, empty, two letters …): decodable all the same, the connection must not be left without a reader
+        ctype = rng.choice(['P', 'D', 'F']) if rng.random() < 0.55 else rng.choice(ODD_TYPES)
+        frame = m.PeerInit.Request('someone', ctype, rng.choice([1, 5, 2 ** 32 - 1])).serialize()
     elif kind == 'pierce-known' and tickets:
         frame = m.PeerPierceFirewall.Request(tickets[0]).serialize()
     elif kind in ('pierce-known', 'pierce-unknown'):
@@ -427,7 +461,7 @@ def accept_case(rng: random.Random, table: list, m, p) -> dict:
         segs.append(k)
         left -= k
     return {'case_kind': 'accept', 'obf': obf, 'tickets': tickets, 'first': kind, 'stream': wire, 'segments': segs,
-            'then_eof': then_eof}
+            'then_eof': then_eof, 'ctype': ctype}
 
 
 # ------------------------------------------------------------------------------------------------
@@ -754,6 +788,24 @@ class C02(Property):
                     f'gets no EOF is still there {late["waited"]:.0f} s later (state {late["state"]}, registered '
                     f'{late["registered"]}, remote sees EOF {late["remote_sees_eof"]}, CLOSED reported {len(late["closes"])} times)',
                     case, observed=late, required='closed by the read time-out, unregistered'))
+            after = o.get('after_init')
+            if after is not None:
+                res.count('d:init-then-next-frame:' + ('known-type' if c.get('ctype') in ('P', 'D') else 'odd-type'))
+                closed_early = after['state'] == 'CLOSED'
+                # the frame may be delivered, or dropped as undecodable for that connection type (the stream stays in frame),
+                # or the connection may be closed; what must not happen is that NOBODY reads the connection any more
+                if not closed_early and after['delivered'] < 1 and not after['reader']:
+                    res.violations.append(Violation(
+                        'C02-nobody-reads-after-init', f'accepted connection that announced type {c.get("ctype")!r} in a '
+                        f'well-formed PeerInit is open but has no reader: its next frame was neither parsed nor was the '
+                        f'connection closed (state {after["state"]} / {after["connection_state"]})',
+                        case, observed=after, required='a reader parses the next frame, or the connection is closed'))
+                if len(after['closes']) != 1 or after['registered_late'] or not after['remote_sees_eof_late']:
+                    res.violations.append(Violation(
+                        'C02-connection-parked', f'accepted connection that announced type {c.get("ctype")!r} and then went '
+                        f'silent is still there {after["waited"]:.0f} s later (state {after["state_late"]}, registered '
+                        f'{after["registered_late"]}, remote sees EOF {after["remote_sees_eof_late"]}, CLOSED reported '
+                        f'{len(after["closes"])} times)', case, observed=after, required='closed by the read time-out, unregistered'))
             if len(o.get('closes', [])) > 1:
                 res.violations.append(Violation('C02-close-count', f'CLOSED reported {len(o["closes"])} times', case))
             if dmodel is not None and complete:
